@@ -27,6 +27,9 @@ def setup(tmp, seed):
     mk = lambda b=None: [(make_genome(rng, b) if b else make_genome(rng))[:rng.randint(70, 120)]]
     qs = [mk(base), mk(base) + mk(), ['GGGGCCCCGGGG']]              # the last query has an empty signature under every parameter set
     rs = [[base], mk(base), ['CCCCGGGG', 'GGGG'], mk(base), [base]]  # two identical references, one with an empty signature
+    # contigs that are EXACTLY one prefix + k-mer long (16 nt for 11/ATGAC, 7 / 8 nt for 5|6/AT), on either strand: one start position each
+    qs[1] += ['ATGACCGGCGCCGGCC', 'ATCCGCG', 'CGCGGAT', 'ATGCCGCG']
+    rs[3] += ['ATCCGCG', 'GGCCGGCGCCGGTCAT']
     qnames = ['query0.fasta', 'sub dir/query,1.fa.gz', 'q.2.fna']
     rnames = ['ref0.fa', 'r/ref1.fasta.gz', 'ref2.gz', 'ref3.txt', 'other/ref0.fa.fasta']      # incl. a gzip extension with no FASTA extension before it
     env = dict(q=qs, r=rs, qnames=qnames, rnames=rnames)
